@@ -54,6 +54,14 @@ def check_wallet(case, ctx):
         R.master(case["seed"])
     except R.Invalid:
         return
+    # a wallet of the OTHER network (other seed) visits the same paths first, in the same process
+    decoy = PaperWallet.from_bip39_seed_bytes(bytes(b ^ 0x5A for b in case["seed"]) or b"\x01" * 16, not testnet)
+    for path in [[]] + [list(p) for p in case["paths"]]:
+        st_, dn = call(decoy.master.derive_path, path)
+        if st_ == "ok":
+            call(decoy.node_extended_keys, dn)
+            call(decoy.p2wsh_address, dn)
+    call(decoy.wasabi_json)
     w = PaperWallet.from_bip39_seed_bytes(case["seed"], testnet)
     acct, iv = case["account"], [case["start"], case["start"] + case["rows"]]
     st_, data = call(w.generate, acct, tuple(iv))
@@ -99,6 +107,16 @@ def check_wallet(case, ctx):
         for kind in KINDS:
             tagged("C16/address/network", "%s %s_address" % (what, kind), getattr(w, kind + "_address")(node), net, ctx,
                    ("p2pkh", "p2sh", "segwit"))
+        if len(path) < 60:
+            g = w.address_generator(node)
+            first = next(g)
+            second = g.send(3)
+            g.close()
+            tagged("C16/address/generator-network", what + " address_generator() default, first yield", first[1], net, ctx, ("segwit",))
+            tagged("C16/address/generator-network", what + " address_generator() after send(3)", second[1], net, ctx, ("segwit",))
+            g2 = w.address_generator(node, w.p2sh_p2wsh_address)
+            tagged("C16/address/generator-network", what + " address_generator(p2sh_p2wsh)", next(g2)[1], net, ctx, ("p2sh",))
+            g2.close()
         rows = w.group([node], w.p2sh_p2wpkh_address)
         tagged("C16/row/address-network", what + " group address", rows[0][1], net, ctx)
         tagged("C16/row/wif-network", what + " group WIF", rows[0][3], net, ctx, ("wif",))
